@@ -593,7 +593,7 @@ func propMutation(t *rapid.T) {
 }
 
 func TestMutationPrograms(t *testing.T) {
-	kit.Check(t, 20000, 3200000, propMutation)
+	kit.Check(t, 60000, 3200000, propMutation)
 }
 
 // FuzzDecryptMutations: the native fuzzer drives the same mutation programs (thorough tier).
